@@ -9,6 +9,8 @@
 (*              pw = the password whose hash it holds, intact = carries a valid keymaster     *)
 (*              signature for u and is unmodified                                             *)
 (* confirmed  : history - (user, password) pairs the directory has confirmed                 *)
+(* since      : history - half lifetimes (48 h) since the directory last confirmed the user's  *)
+(*              cached record (2 = the 96 hours are over)                                     *)
 (* One action per login request (Login); the environment changes the directory, the           *)
 (* servers, time and - as an attacker with write access to the store - the rows.              *)
 EXTENDS Integers, Sequences, FiniteSets, TLC
@@ -16,9 +18,9 @@ EXTENDS Integers, Sequences, FiniteSets, TLC
 CONSTANTS Users, Passwords, Servers, AsBuilt
 Has(f) == f \in AsBuilt
 
-NoRow == [pw |-> "none", expired |-> FALSE, intact |-> TRUE, how |-> "none"]
-VARIABLES dirPw, srv, row, confirmed, last
-vars == <<dirPw, srv, row, confirmed, last>>
+NoRow == [pw |-> "none", expired |-> FALSE, intact |-> TRUE, how |-> "none", age |-> 0]
+VARIABLES dirPw, srv, row, confirmed, last, since
+vars == <<dirPw, srv, row, confirmed, last, since>>
 
 AnyAnswers == \E i \in Servers : srv[i] = "up"
 
@@ -27,6 +29,7 @@ AnyAnswers == \E i \in Servers : srv[i] = "up"
 G_C07_Directory(u, pw)  == AnyAnswers => pw = dirPw[u]
 G_C07_Cache(u, pw)      == ~AnyAnswers => /\ row[u] # NoRow /\ row[u].pw = pw /\ row[u].intact /\ ~row[u].expired
                                           /\ <<u, pw>> \in confirmed
+                                          /\ since[u] < 2             \* ... by a login the directory confirmed less than 96 hours ago
 AcceptAllowed(u, pw) == G_C07_Directory(u, pw) /\ G_C07_Cache(u, pw)
 \* the legitimate cases must work
 MustAccept(u, pw) == \/ AnyAnswers /\ pw = dirPw[u]
@@ -34,7 +37,8 @@ MustAccept(u, pw) == \/ AnyAnswers /\ pw = dirPw[u]
 
 \* effect on the cached row
 RowAfter(u, pw, accepted) ==
-    IF AnyAnswers /\ accepted THEN [pw |-> pw, expired |-> FALSE, intact |-> TRUE, how |-> "none"]      \* refreshed
+    IF AnyAnswers /\ accepted THEN [pw |-> pw, expired |-> FALSE, intact |-> TRUE, how |-> "none", age |-> 0]      \* refreshed
+    ELSE IF Has("OfflineRefreshes") /\ ~AnyAnswers /\ accepted THEN [row[u] EXCEPT !.age = 0, !.expired = FALSE]      \* as-built deviation
     ELSE IF AnyAnswers /\ ~accepted /\ row[u] # NoRow /\ row[u].pw = pw /\ row[u].intact /\ ~row[u].expired
          THEN NoRow                                                                                       \* evicted
     ELSE row[u]
@@ -45,30 +49,38 @@ Login(u, pw) ==
                   ELSE MustAccept(u, pw)
        IN /\ row' = [row EXCEPT ![u] = RowAfter(u, pw, acc)]
           /\ confirmed' = IF AnyAnswers /\ acc THEN confirmed \cup {<<u, pw>>} ELSE confirmed
+          /\ since' = IF AnyAnswers /\ acc THEN [since EXCEPT ![u] = 0] ELSE since
           /\ last' = [op |-> "login", user |-> u, pw |-> pw, accepted |-> acc,
                       allowed |-> AcceptAllowed(u, pw)]
     /\ UNCHANGED <<dirPw, srv>>
 
 ChangePw(u, pw) == /\ pw # dirPw[u] /\ dirPw' = [dirPw EXCEPT ![u] = pw] /\ last' = [op |-> "change", user |-> u, pw |-> pw]
-                   /\ UNCHANGED <<srv, row, confirmed>>
+                   /\ UNCHANGED <<srv, row, confirmed, since>>
 SetServer(i, s) == /\ srv[i] # s /\ srv' = [srv EXCEPT ![i] = s] /\ last' = [op |-> "server", idx |-> i, state |-> s]
-                   /\ UNCHANGED <<dirPw, row, confirmed>>
+                   /\ UNCHANGED <<dirPw, row, confirmed, since>>
 \* 96 hours pass
-Expire(u) == /\ row[u] # NoRow /\ ~row[u].expired /\ row' = [row EXCEPT ![u].expired = TRUE]
+Expire(u) == /\ row[u] # NoRow /\ ~row[u].expired /\ row' = [row EXCEPT ![u].expired = TRUE, ![u].age = 2]
+             /\ since' = [since EXCEPT ![u] = 2]
              /\ last' = [op |-> "expire", user |-> u] /\ UNCHANGED <<dirPw, srv, confirmed>>
+\* 48 hours pass
+Older(a) == IF a >= 2 THEN 2 ELSE a + 1
+HalfLife(u) == /\ row[u] # NoRow /\ since[u] < 2
+               /\ row' = [row EXCEPT ![u].age = Older(@), ![u].expired = (Older(row[u].age) >= 2)]
+               /\ since' = [since EXCEPT ![u] = Older(@)]
+               /\ last' = [op |-> "halflife", user |-> u] /\ UNCHANGED <<dirPw, srv, confirmed>>
 \* an attacker with write access to the store (but without the signing key)
 TamperKinds == {"swapsubject", "alterhash", "extendcolumn", "resign"}
 Tamper(u, how) ==
     /\ row[u] # NoRow
     /\ row' = [row EXCEPT ![u] = CASE how = "extendcolumn" -> [@ EXCEPT !.how = how]   \* the signed expiry still rules
                                    [] OTHER -> [@ EXCEPT !.intact = FALSE, !.how = how]]
-    /\ last' = [op |-> "tamper", user |-> u, how |-> how] /\ UNCHANGED <<dirPw, srv, confirmed>>
+    /\ last' = [op |-> "tamper", user |-> u, how |-> how] /\ UNCHANGED <<dirPw, srv, confirmed, since>>
 
 Init == /\ dirPw \in [Users -> Passwords] /\ srv = [i \in Servers |-> "up"] /\ row = [u \in Users |-> NoRow]
-        /\ confirmed = {} /\ last = [op |-> "init"]
+        /\ confirmed = {} /\ last = [op |-> "init"] /\ since = [u \in Users |-> 0]
 Next == \/ \E u \in Users, pw \in Passwords : Login(u, pw) \/ ChangePw(u, pw)
         \/ \E i \in Servers, s \in {"up", "err", "down"} : SetServer(i, s)
-        \/ \E u \in Users : Expire(u)
+        \/ \E u \in Users : Expire(u) \/ HalfLife(u)
         \/ \E u \in Users, h \in TamperKinds : Tamper(u, h)
 Spec == Init /\ [][Next]_vars
 
